@@ -54,7 +54,11 @@ class GramEval:
             t = set()
             for v in flat:
                 t |= v.t
-            return Str(t)
+            r = Str(t)
+            lps = [getattr(v, "lenpoly", None) for v in flat]
+            if lps and all(lp is not None and lp == lps[0] for lp in lps):
+                r.lenpoly = lps[0]
+            return r
         if all(isinstance(v, Num) for v in flat):
             tys = set(v.ty for v in flat)
             return Num(flat[0].ty if len(tys) == 1 else "/".join(sorted(tys)), p_var("n"))
@@ -159,6 +163,15 @@ class GramEval:
                 if name and name != "_":
                     if isinstance(v, Num) and getattr(v, "look", None) is None:
                         v = Num(v.ty, p_var(name), v.src)  # polynomials are written over the action's own argument names
+                    if isinstance(v, Str) and getattr(v, "lenpoly", None) is not None:
+                        # the length of a text handed up by a nonterminal, over this action's own names: the single token
+                        # length it is made of becomes len(<name>~); anything else is not tracked
+                        lv = {x for mono in v.lenpoly for x in mono}
+                        v2 = Str(v.t)
+                        if len(lv) == 1 and next(iter(lv)).startswith("len("):
+                            old_ = next(iter(lv))
+                            v2.lenpoly = {tuple(f"len({name}~)" if x == old_ else x for x in mono): c for mono, c in v.lenpoly.items()}
+                        v = v2
                     env[name] = v
             q2 = q.fork()
             q2.env = env
